@@ -7,8 +7,8 @@ package main
 import (
 	"fmt"
 	"go/constant"
-	"go/types"
 	"go/token"
+	"go/types"
 
 	"golang.org/x/tools/go/ssa"
 )
